@@ -17,7 +17,7 @@ func init() { core.Register(check{}) }
 func (check) ID() string    { return "C06" }
 func (check) Level() string { return "fault_enumeration" }
 func (check) Rule() string {
-	return "fault enumeration, exhaustive per seed message and entry point, simplest first: every truncation point; every single-byte substitution at every structural position (type tag, size, length, field id / tag, varint continuation, stop) over the alphabet {00 01 7f 80 ff, every valid type code, invalid type codes}; every 4-byte size field in {0,1,n-1,n+1,2^16,2^31-1,2^31,2^32-1}; every length varint in {2^31-1,2^31,2^63-1,2^63,2^64-1,10-byte overflow}; all byte strings of length <=2 and length 3 over a 12-symbol alphabet (thorough: <=4); nesting at limit-1/limit/limit+1 and very deep. Monitors per execution: recoverable panic, over-read into a PROT_NONE page placed right behind the input, worker death (SIGSEGV / fatal OOM / stack overflow) attributed to the announced case, 30 s no-progress watchdog, TotalAlloc of the second of two identical runs <= 1 MiB + 256 x len(input). A case is non-trivial if distinct by (entry point, seed, fault). Round 10: number-heavy well-formed messages under the allocation monitor."
+	return "fault enumeration, exhaustive per seed message and entry point, simplest first: every truncation point; every single-byte substitution at every structural position (type tag, size, length, field id / tag, varint continuation, stop) over the alphabet {00 01 7f 80 ff, every valid type code, invalid type codes}; every 4-byte size field in {0,1,n-1,n+1,2^16,2^31-1,2^31,2^32-1}; every length varint in {2^31-1,2^31,2^63-1,2^63,2^64-1,10-byte overflow}; all byte strings of length <=2 and length 3 over a 12-symbol alphabet (thorough: <=4); nesting at limit-1/limit/limit+1 and very deep. Monitors per execution: recoverable panic, over-read into a PROT_NONE page placed right behind the input, worker death (SIGSEGV / fatal OOM / stack overflow) attributed to the announced case, 30 s no-progress watchdog, TotalAlloc of the second of two identical runs <= 1 MiB + 256 x len(input). A case is non-trivial if distinct by (entry point, seed, fault). Round 10: number-heavy well-formed messages under the allocation monitor. Round 11: typed GetMany / GetTree of two children of field 1."
 }
 
 func (check) Assumptions() []string {
